@@ -7,7 +7,7 @@ TRUSTED = ["Coq 8.16.1 kernel", "extraction (ExtrOcamlBasic, Z inductive) + orac
            "tools/translate.py (Python ast -> Gallina, fail-closed) for RaggedView2._calculate_lengths",
            "numpy indexing primitives as modelled in Lib/NumpySem.v (validated by every case)", "this harness"]
 ASSUME = ["element values are the flat positions 0..n-1 (parametricity: getitem only moves elements)"]
-RULE = ("9 shapes with empty rows in every position x every row selector (Ellipsis, ints -n-1..n, slices over 6x6x5 bounds/steps, "
+RULE = ("index expressions on lazily derived arrays (the two-step chains of C06) and on fresh arrays: 9 shapes with empty rows in every position x every row selector (Ellipsis, ints -n-1..n, slices over 6x6x5 bounds/steps, "
         "int lists, masks) x every column selector (none, Ellipsis, ints, slices over 8x8x7, int lists) + a[()] ; quick: seeded 1/8 sample "
         "of the slice x slice block, everything else complete; (row list, column list) pairs of unequal length where one has length 1 are not generated (numpy broadcasting of index lists is outside the modelled grammar); non-trivial = array has >= 2 rows and the index is not a bare Ellipsis")
 SHAPES = [[3,0,2,1],[0,2],[2,0],[0,0],[1,3],[0],[2],[],[0,1,0,0,2]]
@@ -109,6 +109,8 @@ def kind_of(idx):
 
 
 def run(Rn, tier, rng):
+    from harness import c06
+    c06._run_chains(Rn, tier, rng)          # the same index grammar on lazily derived arrays ("for every ragged array")
     items, lines, impl = collect(tier, rng)
     out = oracle(lines)
     for (R, idx), line, i, o in zip(items, lines, impl, out):
